@@ -1,5 +1,5 @@
 From Coq Require Import Extraction ExtrOcamlBasic.
-From F8 Require Import Base.Conv Sess.Bytes Sess.Msg Sess.Persist Sess.Session Sess.SimpleCodec Sess.Wire C16.Spec_C16.
+From F8 Require Import Base.Conv Sess.Bytes Sess.Msg Sess.Persist Sess.Session Sess.SimpleCodec Sess.Wire Sess.SendLemmas C16.Spec_C16.
 Extraction Language OCaml.
 Extraction "../ocaml/gen/C16/model.ml" keep_types run_line parse_trace parse_history run_history render_trace
-  c16_ok c16_ok_line.
+  c16_ok c16_ok_line wf_schema.
